@@ -1,8 +1,8 @@
 ---- MODULE MC_Estimator ----
 EXTENDS Estimator
-cUniverses == << [controls |-> {}, sensors |-> ("pos" :> {"p"})],
-                 [controls |-> {"a"}, sensors |-> ("pos" :> {"p"}) @@ ("vel2" :> {"q", "r"})],
-                 [controls |-> {"a", "B"}, sensors |-> ("pos" :> {"p"}) @@ ("vel2" :> {"q", "r"}) @@ ("Alt" :> {"h", "R2", "zz"})] >>
+cUniverses == << [controls |-> {}, controls2 |-> {}, sensors |-> ("pos" :> {"p"})],
+                 [controls |-> {"a"}, controls2 |-> {"thrust"}, sensors |-> ("pos" :> {"p"}) @@ ("vel2" :> {"q", "r"})],
+                 [controls |-> {"a", "B"}, controls2 |-> {"u1", "U2"}, sensors |-> ("pos" :> {"p"}) @@ ("vel2" :> {"q", "r"}) @@ ("Alt" :> {"h", "R2", "zz"})] >>
 cConfigVals == [common_subexpression_elimination |-> {"true", "false"},
                 python_modules |-> {"default"},
                 extra_validation |-> {"false"},
